@@ -64,6 +64,9 @@ CHECKS = {
  "C16": ("corpus", "exhaustive enumeration of a generated program corpus: every derived description of a systematically enumerated set of Rust types is compiled against /repo's derive macros and compared with the generator's own model of the type",
          "~190 (quick) / ~700 (thorough) derived structs, enums and error enums covering every supported field type, every wrapper around every leaf and every pair of wrappers, raw-identifier fields, lifetimes, doc comments; TYPE / CUSTOM_TYPE / VARIANTS compared deeply; interfaces assembled from the derived descriptions are rendered and parsed back. The C14 defect (commented enum variant) is a listed known finding here too.",
          "Trusted: the generator's model of the mapping (written from the statement). Not asserted: Duration, paths, OsStr, network addresses, serde_json::Value; Option<Option<T>> is not generated.", "4 C16"),
+ "C15": ("corpus", "exhaustive enumeration of a generated program corpus: every interface of a systematically enumerated IDL corpus is run through /repo's code generator at build time, compiled, and every method, type, enum value and error of every interface is exercised",
+         "60 (quick) / 400 (thorough) interfaces whose names cover acronyms, digits, camelCase, snake_case and Rust keywords; expectations (method path, parameter and output names, JSON shapes, enum spellings, error names) come from the IDL model; Rust-side names are read positionally from the generated code, never predicted. A corpus that does not compile is a violation.",
+         "Trusted: the harness's mirror of the parameter types the generator declares for each IDL type (needed to write argument expressions). Interfaces are non-recursive and collision-free.", "4 C15"),
 }
 
 NOT_YET = {
